@@ -57,4 +57,10 @@ let () =
   register "allvalid" (function [s] ->
     let sem = sem_of_sexp s in
     show_nat (Sem.candidates_count sem) ^ " " ^ show_list show_seq (Sem.all_valid sem)
+    | _ -> "!args");
+  register "flatinfo" (function [f] ->
+    let fb = Wire_flat.flat_of_sexp f in
+    show_nat fb.Flat.fl_trials ^ " " ^ show_nat (nat_of_int (Stdlib.List.length fb.Flat.fl_design)) ^ " "
+    ^ show_nat (nat_of_int (Stdlib.List.length fb.Flat.fl_constraints))
+    ^ " " ^ show_list (fun i -> show_nat (Flat.sustain_of fb (nat_of_int i))) (Stdlib.List.init (Stdlib.List.length fb.Flat.fl_design) (fun i -> i))
     | _ -> "!args")
